@@ -396,7 +396,11 @@ def step_correspondence(prop, tier, seed, harness, replay=None):
     for mode in info.get("modes", ["run"]):
         rc, impl, err = run_impl(harness, text, mode)
         results[mode] = (rc, impl, err)
-    model = run_model(text) if info.get("model", True) else [""] * (len(cases) + 1)
+    if info.get("model_lines"):
+        # only some operations are answered by the model (the others are replaced by a no-op)
+        model = run_model("\n".join(info["model_lines"](c) for c in cases) + "\n")
+    else:
+        model = run_model(text) if info.get("model", True) else [""] * (len(cases) + 1)
     stats = {"evaluations": 0, "nontrivial": set(), "ops": {}, "kinds": {}, "corpus_cases": ncorpus}
     failures = []
     cur_mapping = None
